@@ -544,4 +544,30 @@ theorem next_into_fin (s : LState) (a : Ans) (hf : finPc s.pc = false) (hf' : fi
     | (exfalso; rw [secondItem_notfin s _ _ _ hpc] at hf'; cases hf'; done)
     | (exfalso; rw [show finPc _ = finPc s.pc from rfl, hf] at hf'; cases hf'; done)
 
+/-- a list of statuses without `in_progress` splits into the five remaining classes -/
+theorem partition_statuses (l : List (Nat × St)) (h : ∀ kv ∈ l, kv.2 ≠ .inProgress) :
+    l.length = l.countP (fun kv => kv.2 == .completed) + l.countP (fun kv => kv.2 == .failed)
+      + l.countP (fun kv => kv.2 == .stopped) + l.countP (fun kv => kv.2 == .stopping)
+      + l.countP (fun kv => kv.2 == .paused) := by
+  induction l with
+  | nil => rfl
+  | cons kv l ih =>
+    have ih' := ih (fun x hx => h x (List.mem_cons_of_mem _ hx))
+    have hkv := h kv List.mem_cons_self
+    obtain ⟨k, v⟩ := kv
+    simp only [List.countP_cons, List.length_cons]
+    cases v
+    · exact absurd rfl hkv
+    all_goals (simp only [beq_self_eq_true, if_true, show (St.paused == St.completed) = false from rfl,
+      show (St.paused == St.failed) = false from rfl, show (St.paused == St.stopped) = false from rfl,
+      show (St.paused == St.stopping) = false from rfl, show (St.stopped == St.completed) = false from rfl,
+      show (St.stopped == St.failed) = false from rfl, show (St.stopped == St.stopping) = false from rfl,
+      show (St.stopped == St.paused) = false from rfl, show (St.stopping == St.completed) = false from rfl,
+      show (St.stopping == St.failed) = false from rfl, show (St.stopping == St.stopped) = false from rfl,
+      show (St.stopping == St.paused) = false from rfl, show (St.completed == St.failed) = false from rfl,
+      show (St.completed == St.stopped) = false from rfl, show (St.completed == St.stopping) = false from rfl,
+      show (St.completed == St.paused) = false from rfl, show (St.failed == St.completed) = false from rfl,
+      show (St.failed == St.stopped) = false from rfl, show (St.failed == St.stopping) = false from rfl,
+      show (St.failed == St.paused) = false from rfl, Bool.false_eq_true, if_false]; omega)
+
 end SyneTune.Tuner
